@@ -98,6 +98,9 @@ type WsHeader struct {
 
 const WsMagicStr = "258EAFA5-E914-47DA-95CA-C5AB0DC85B11"
 
+// wsMaxPayloadLength 读取websocket帧时，允许的最大payload长度
+const wsMaxPayloadLength = 16 * 1024 * 1024
+
 func MakeWsFrameHeader(wsHeader WsHeader) (buf []byte) {
 	headerSize := 2
 	payload := uint64(0)
@@ -229,6 +232,10 @@ func ReadWsPayload(r *bufio.Reader) ([]byte, error) {
 		h.MaskKey = bele.BeUint32(buf)
 	}
 
+	// 对端可以声明最大2^64-1的长度，直接按这个长度申请内存会导致进程退出
+	if h.PayloadLength > wsMaxPayloadLength {
+		return nil, fmt.Errorf("websocket payload too large. length=%d", h.PayloadLength)
+	}
 	payload := make([]byte, h.PayloadLength)
 	_, err = io.ReadFull(r, payload)
 	if err != nil {
